@@ -306,8 +306,54 @@ def cascade_exit(R, rep):
         rep.unresolved("R5", "ok-exit", "no Ok exit after the leg producers")
 
 
+def distribution_loops(R, rep, rule="R9"):
+    """A quantity handed to the ledger is spread over the lots of a date in a loop; the loop may stop early only because the
+    quantity is used up. An exit that depends on the CURRENT lot (`if to_move <= 0 { break }` with to_move = min(remaining,
+    lot.available())) abandons the later lots of the day as soon as one lot is exhausted: the remainder is booked nowhere, or —
+    for pooling — booked again by the next purchase line (seeded change C02-s6)."""
+    F = R.F
+    debit_fns = {w[0].parent or w[0].id for c_ in ("consumed", "in_pool", "reserved") for w in R.field_writes(LOT, c_) if w[2] != "construct"}
+    n = 0
+    for b in F.bodies.values():
+        if not b.id.startswith("cgt_core::matcher::acquisition_ledger::AcquisitionLedger::") or b.kind != "method":
+            continue
+        tb = None
+        for h, blks in b.loops():
+            if not any(b.term(x)["k"] == "call" and (b.term(x)["callee"] in debit_fns) for x in blks):
+                continue
+            nexts = [x for x in blks if b.term(x)["k"] == "call" and parse_callee(b.term(x)["callee"])[2] == "next"]
+            if len(nexts) != 1:
+                continue
+            tb = tb or R.terms(b, 0)
+            elem = ("some", tb.call_term(b.term(nexts[0])))
+            n += 1
+            bad = None
+            for s in blks:
+                t = b.term(s)
+                if t["k"] != "switch":
+                    continue
+                outs = [x for x in b.succ(s) if x not in blks]
+                if not outs:
+                    continue
+                cond = tb.operand(t["discr"])
+                if isinstance(cond, tuple) and cond and cond[0] == "discr" and any(isinstance(x, tuple) and x and x[0] == "call" and parse_callee(x[1])[2] == "next" for x in subterms(cond)) \
+                        and not any(x == elem for x in subterms(cond)):
+                    continue        # the iterator is exhausted
+                if isinstance(cond, tuple) and cond and cond[0] == "discr" and cond[1] == tb.call_term(b.term(nexts[0])):
+                    continue
+                if any(x == elem for x in subterms(cond)):
+                    bad = (s, cond)
+            rep.ob(rule, f"{b.short}:loop@{h}:exit", bad is None, "the loop over the lots ends only when the lots or the quantity are used up" if bad is None else
+                   f"the loop over the lots is left under `{show(bad[1])[:70]}`, which depends on the current lot: later lots of the date are never reached",
+                   b.loc(b.term(bad[0])["sp"]) if bad else b.loc(), key=f"{rule}:{b.short}:lot-dependent-exit")
+    rep.count("ledger_distribution_loops", n)
+    if n < 2:
+        rep.unresolved(rule, "distribution-loops", f"only {n} loops over lots that debit them found in the ledger")
+
+
 def run(ctx, rep):
     R = Roles(ctx.F)
+    distribution_loops(R, rep)
     counters = lot_accounting(R, rep)
     who_writes(R, rep, counters)
     pairing(R, rep)
